@@ -165,7 +165,7 @@ impl Template {
                                 w.expr_stmt(|w| {
                                     write!(
                                         w,
-                                        "var {}=D('{}#{}',(require,exports,module)=>{{{}}})()",
+                                        "var {}=D('{}#{}',(require,exports,module)=>{{{}\n}})()",
                                         ident, &self.path, module_name.name, content
                                     )?;
                                     Ok(())
